@@ -1422,5 +1422,11 @@ fn main() {
 	}
 	// keep the smallest witness per signature
 	violations.sort_by_key(|v| v.witness["message_len"].as_u64().unwrap_or(u64::MAX));
+	// AddressSanitizer: the quick workload of this check once more on an ASan build (real hyper / soketto / tokio IO)
+	if ctx.tier == Tier::Thorough && ctx.replay.is_none() {
+		if let Some(why) = jrv::sanit::merge_asan(jrv::sanit::run_asan("c07", "C07", ctx.seed, Duration::from_secs(2400)), &mut ev, &mut violations) {
+			inconclusive = inconclusive.or(Some(why));
+		}
+	}
 	finish(&ctx, ev, violations, inconclusive);
 }
